@@ -78,7 +78,8 @@ func init() {
 		r := NewRng(cfg.Seed)
 		var reqs, impl []string
 		var human []interface{}
-		names := []string{"a", "b", "c2"}
+		// names beginning with a dot look like the start of "./" or "../" to a careless prefix test (seed C11-d)
+		names := []string{"a", "b", "c2", ".github", "..cache"}
 		subs := []string{"", "a", "a/b", "b/a/c2", "a/b/c2/a"}
 		var bases []string
 		for _, s := range subs {
